@@ -185,6 +185,54 @@ class Checker:
             ctx.count("cache entries checked", len(db.quantities_cache))
 
 
+def long_haul(ctx, r):
+    """'The identical object when the same request is repeated' - also when thousands of other quantities were
+    requested in between (every unit of the table, with and without category, with captions, derived): a cache
+    that forgets, evicts or re-keys would hand out a second instance."""
+    from barril.units import ObtainQuantity, Quantity, Scalar
+
+    db = table.build("posc")
+    with table.pushed(db):
+        ubt = table.units_by_type(db)
+        cbt = table.categories_by_type(db)
+        requests = []
+        for qt in ("length", "time", "mass", "temperature", "pressure"):
+            u, c = r.choice(ubt[qt]), r.choice(cbt[qt])
+            requests += [("u", (u,)), ("u,c", (u, c)), ("u,c,caption", (u, c, "a caption")), ("u,None,caption", (u, None, "another caption")), ("None,c", (None, c)),
+                         ("list", ([(u, 2)], [c])), ("dict", (OrderedDict([(c, [u, 3])]),))]  # fmt: skip
+        first = [(name, args, ObtainQuantity(*args)) for name, args in requests]
+        fps = [snapshot.quantity_fingerprint(q) for _n, _a, q in first]
+        derived0 = (Scalar(2.0, "m") / Scalar(1.0, "s")).GetQuantity()
+        n = 0
+        for qt, us in ubt.items():
+            for u in us:
+                try:
+                    ObtainQuantity(u)
+                    n += 1
+                    for c in cbt.get(qt, [])[:2]:
+                        ObtainQuantity(u, c)
+                        ObtainQuantity(u, c, "x")
+                        n += 2
+                except Exception:
+                    pass
+        ctx.count("long haul: other quantities requested in between", n)
+        for (name, args, q), fp in zip(first, fps):
+            ctx.ev()
+            ctx.nt(("longhaul", name, repr(args)[:60]))
+            again = ObtainQuantity(*args)
+            if again is not q:
+                ctx.violation("long-haul:repeated-request-not-identical:%s" % name, {"request": repr(args)[:120], "first": repr(q), "second": repr(again), "equal": again == q, "requests_in_between": n})
+            elif snapshot.quantity_fingerprint(q) != fp:
+                ctx.violation("long-haul:quantity-changed:%s" % name, {"request": repr(args)[:120], "before": repr(fp)[:300], "after": repr(snapshot.quantity_fingerprint(q))[:300]})
+        ctx.ev()
+        if (Scalar(2.0, "m") / Scalar(1.0, "s")).GetQuantity() is not derived0:
+            ctx.violation("long-haul:repeated-request-not-identical:arithmetic-result", {"quantity": repr(derived0)})
+        if Quantity.CreateEmpty() is not Quantity.CreateEmpty():
+            ctx.violation("long-haul:repeated-request-not-identical:CreateEmpty", {})
+        for v in cache_violations(db, 5):
+            ctx.violation("long-haul:cache:%s" % v[0], {"key": repr(v[1])[:200], "resolved": repr(v[2])[:200]})
+
+
 def run(ctx):
     from barril.units import Quantity, UnitDatabase
 
@@ -196,7 +244,7 @@ def run(ctx):
         "(string, legacy spelling, caption, constructor, default unit, CreateDerived / ObtainQuantity(dict) / ObtainQuantity(list) incl. two categories of one quantity type "
         "in different units), Scalar/Array/Quantity arithmetic with differing units and categories on both sides, conversions, failed operations, copies, pickles; "
         "after every step every Quantity constructed so far (enrolled from the Quantity.__init__ probe) and every cache value is re-fingerprinted; per history: "
-        "==/hash partition over all pairs, cache soundness. distinct non-trivial = distinct (op kind sequence) histories"
+        "==/hash partition over all pairs, cache soundness; one long-haul pass per shard: 35 requests repeated after ~5000 other quantities (every unit of the table) were requested. distinct non-trivial = distinct (op kind sequence) histories"
     )
     ctx.assumptions = ["vandalism through private attributes or through a dict the caller keeps and mutates after handing it to ObtainQuantity is not an operation of the library"]
     r = ctx.rng("hist")
@@ -210,6 +258,7 @@ def run(ctx):
         ctx.nt(tuple(op[0] + str(op[2] if op[0] == "binop" else "") for op in hist))
         if h == 0 and ctx.shard == 0:
             ctx.sample({"history_steps_18_26": [[str(x) for x in op] for op in hist[18:26]]})
+    long_haul(ctx, ctx.rng("longhaul"))
     ctx.count("fingerprint comparisons", mon.n_checks)
     ctx.notes["monitor"] = {"fingerprint_and_pair_checks": mon.n_checks}
     # thorough tier: the repository's own tests as a workload under the global monitors (vp/suite_workload.py)
